@@ -3,7 +3,7 @@
    [dedup_booked_before_decision], [metrics_snapshot_after_join] are regenerated from the source on every run. *)
 From Coq Require Import NArith Bool List.
 Import ListNotations.
-From XetModel Require Import Base.Codec Gen.ShardLayout Gen.DedupFacts Model.Merkle Model.Shard Model.Dedup Proofs.PipelineProofs.
+From XetModel Require Import Base.Codec Gen.ShardLayout Gen.DedupFacts Model.Merkle Model.Shard Model.Dedup Proofs.PipelineProofs Proofs.ResolveProofs Proofs.BytesProofs.
 Open Scope N_scope.
 
 (* new + deduplicated = total (bytes and chunks) after every process_chunks call, for every oracle *)
@@ -16,8 +16,21 @@ Proof. exact process_chunks_conservation. Qed.
 Theorem C14_total_chunks_exact : forall cf f chunks answers, answers_fit chunks answers ->
   m_total_chunks (f_metrics (process_chunks dedup_booked_before_decision cf f chunks answers)) = m_total_chunks (f_metrics f) + N.of_nat (length chunks).
 Proof. exact process_chunks_total_chunks. Qed.
-(* the byte half (total_bytes = bytes fed) additionally needs byte-exact answers; it is covered by the correspondence and the
-   direct oracle on every generated file (streams dd and sess), its Coq proof is not part of this revision *)
+(* the byte half: a file's total-bytes metric -- the size file_cleaner writes into the pointer file -- is the number of bytes
+   fed, however the chunks are grouped into process_chunks calls and whatever is deduplicated locally, against the session's
+   own xorbs or against the global table.  A dedup answer books the byte count of its segment; for the local query that is
+   the summed length of the pending chunks it names, which the resolution invariant (C01) shows to be the incoming chunks.
+   Assumed: StoreOk (collision freedom), the table answers with xorbs of the store, and no xorb reaches 4 GiB (the segment
+   byte count is a u32). *)
+Theorem C14_total_bytes_exact : forall F U, StoreOk F U -> forall cf ext R blocks,
+  TableOk F ext -> TableSmall ext -> (forall x, In x F -> sum_lens (chunks_of x) < 4294967296) ->
+  (forall b c, In b blocks -> In c b -> In c U) ->
+  (forall x, In x (f_registered (feed_blocks dedup_booked_before_decision cf ext (fd_with_registered R) blocks)) -> In x F) ->
+  m_total_bytes (f_metrics (feed_blocks dedup_booked_before_decision cf ext (fd_with_registered R) blocks)) = sum_lens (concat blocks).
+Proof. exact file_total_bytes. Qed.
+Example C14_total_bytes_nonvacuous : m_total_bytes (f_metrics ex_file) = sum_lens (concat ex_blocks) /\ sum_lens (concat ex_blocks) = 40
+  /\ m_deduped_bytes (f_metrics ex_file) = 10.
+Proof. exact ex_total_bytes. Qed.
 
 (* the shape the source had before the repair (counters booked before the accept/reject decision) violates it *)
 Theorem C14_booked_before_decision_refuted :
@@ -39,3 +52,4 @@ Proof. exact nonvacuous_C14. Qed.
 Print Assumptions C14_conservation.
 Print Assumptions C14_total_chunks_exact.
 Print Assumptions C14_session_sums.
+Print Assumptions C14_total_bytes_exact.
